@@ -182,6 +182,12 @@ func parseJavadocTags(commentContent string) *model.Javadoc {
 }
 
 func buildGraphFromAST(node *sitter.Node, sourceCode []byte, graph *CodeGraph, currentContext *Node, file string) {
+	traverseAST(node, sourceCode, graph, currentContext, file)
+	// once per tree, not once per syntax node: the pass visits the whole graph
+	markInvokedMethods(graph)
+}
+
+func traverseAST(node *sitter.Node, sourceCode []byte, graph *CodeGraph, currentContext *Node, file string) {
 	isJavaSourceFile := isJavaSourceFile(file)
 	switch node.Type() {
 	case "block":
@@ -973,9 +979,13 @@ func buildGraphFromAST(node *sitter.Node, sourceCode []byte, graph *CodeGraph, c
 	// Recursively process child nodes
 	for i := 0; i < int(node.ChildCount()); i++ {
 		child := node.Child(i)
-		buildGraphFromAST(child, sourceCode, graph, currentContext, file)
+		traverseAST(child, sourceCode, graph, currentContext, file)
 	}
+}
 
+// markInvokedMethods sets hasAccess on every method declaration for which the graph holds an
+// invocation of the same name and argument count.
+func markInvokedMethods(graph *CodeGraph) {
 	// iterate through method declaration from graph node
 	for _, node := range graph.Nodes {
 		if node.Type == "method_declaration" {
